@@ -47,41 +47,5 @@ Spec == Init /\ [][Next]_vars
 ResultIsDeduce == \A g \in 1..G : (pc[g] = "idle" /\ ret[g] # NONE) => ret[g] = Class[cur[g]]
 CacheStable    == \A t \in Types : Cardinality(seen[t]) <= 1 /\ (cache[t] # NONE => cache[t] = Class[t])
 
-(***************************************************************************)
-(* (b) judgement of one recorded call.  e = [op, fl (flavour of the value: *)
-(* "gogo", "googlev1", "google", or "none" for values no runtime owns),    *)
-(* st ("ok" | "err" | "panic" | "nil" | "false" | "zero"), and agreement   *)
-(* flags measured by the harness with the owning runtime only:             *)
-(*   same   1 = the result equals the owning runtime's result              *)
-(*   x1, x2 1 = bytes from csproto decode with the runtime to an equal     *)
-(*              message / bytes from the runtime decode with csproto to an *)
-(*              equal message                                              *)
-(*   szok   1 = Size = len(Marshal)     cls = MsgType's answer             *)
-(*   errc   the error is the documented sentinel (ErrMarshaler / ...)]     *)
-(***************************************************************************)
-Owned == {"gogo", "googlev1", "google"}
-
-ExplainsDispatch(e) ==
-  IF e.fl \in Owned
-  THEN /\ e.st = "ok"
-       /\ e.cls = e.fl
-       /\ CASE e.op = "Marshal"     -> e.x1 = 1 /\ e.szok = 1
-            [] e.op = "Unmarshal"   -> e.x2 = 1
-            [] e.op = "Size"        -> e.szok = 1
-            [] e.op \in {"Clone", "Equal", "Reset", "MarshalText", "GrpcMarshal", "GrpcUnmarshal", "GrpcName", "EqualCross", "EqualDiff"} -> e.same = 1
-            [] e.op = "MsgType"     -> TRUE
-            [] e.op = "MsgTypeConc" -> e.same = 1          \* every racing goroutine got the same, correct class
-            [] OTHER -> FALSE
-  ELSE \* a value no runtime owns: documented error / zero / nil / false, never a panic (Reset excepted)
-       /\ e.cls = "unknown"
-       /\ CASE e.op \in {"Marshal", "GrpcMarshal"}     -> e.st = "err" /\ e.errc = 1
-            [] e.op \in {"Unmarshal", "GrpcUnmarshal"} -> e.st = "err" /\ e.errc = 1
-            [] e.op = "Size"        -> e.st = "zero"
-            [] e.op = "Clone"       -> e.st = "nil"
-            [] e.op \in {"Equal", "EqualCross", "EqualDiff"} -> e.st = "false"
-            [] e.op = "MarshalText" -> e.st = "err"
-            [] e.op = "Reset"       -> e.st \in {"panic", "ok"}
-            [] e.op \in {"MsgType", "MsgTypeConc"} -> e.st = "ok"
-            [] e.op = "GrpcName"    -> e.st = "ok" /\ e.same = 1
-            [] OTHER -> FALSE
+\* (b) the decision table lives in DispatchTable.tla (no variables), shared with TraceDispatch.
 =============================================================================
